@@ -8,10 +8,10 @@
 (*   - the implicit ToString of a template substitution (a "prim" event    *)
 (*     with hint "string") may happen LATER than in the input (past any    *)
 (*     other event), never earlier.                                        *)
-(*   - for X.….m.call|apply(this, ..): the read of .call/.apply on the     *)
-(*     path value vs. evaluating the arguments (only matters when the      *)
-(*     path value is nullish: the input throws its TypeError before the    *)
-(*     arguments are evaluated, the output after) -- see TraceDyn.         *)
+(*   - reading a static X.prototype.m path before or after the this-       *)
+(*     argument of .call/.apply: static paths are bound to real intrinsics *)
+(*     (String.prototype.m, K.prototype.m), whose reads are not events;    *)
+(*     programs with any other callee path are not compared dynamically.   *)
 (* (Reads along a static X.prototype.m path are not events here: static    *)
 (* paths are bound to real intrinsics / the real class K by the membrane.) *)
 (* An event is [e, x, k, v, a]: kind, object/function id, key or hint,     *)
